@@ -180,9 +180,10 @@ class Tr:
         v = n["value"]
         self.literals.append(v)
         f = float(v)
-        if f == int(f) and abs(f) < 1e15:
-            return "(Fn.ofInt (%d : Int))" % int(f)
-        return "(%s)" % repr(f) if "e" not in repr(f) else "(%s)" % repr(f)
+        d = dyadic(f)
+        if d is not None:
+            return d
+        return "(%s)" % repr(f)
 
     def e_CXXThisExpr(self, n):
         return self.this
@@ -287,6 +288,9 @@ class Tr:
                 return "(if %s < %s then %s else %s)" % (args[1], args[0], args[1], args[0])
             return "(if %s < %s then %s else %s)" % (args[0], args[1], args[1], args[0])
         if name in self.CALLS and self.CALLS[name]:
+            # libm functions take real arguments: an `int` argument (std::pow(10, x)) is promoted
+            raw = [a for a in n["inner"][1:] if a.get("kind") != "CXXDefaultArgExpr"]
+            args = [("(Fn.ofInt %s)" % s_) if kind_of_type(qt(r)) == "int" else s_ for s_, r in zip(args, raw)]
             return "(%s %s)" % (self.CALLS[name], " ".join(args))
         raise Unsupported("call to %s" % name)
 
@@ -402,6 +406,12 @@ class Tr:
             return self.assign(lhs, r) + cont()
         if k == "ExprWithCleanups":
             return self.stmts(list(s["inner"]) + rest, final, throws)
+        if k == "UnaryOperator" and s.get("opcode") in ("++", "--"):
+            # `++x;` / `x++;` as a statement (value unused): x := x +/- 1
+            tgt = s["inner"][0]
+            one = "(1 : Int)" if kind_of_type(qt(tgt)) == "int" else "(Fn.ofInt (1 : Int))"
+            r = "(%s %s %s)" % (self.e(tgt), "+" if s["opcode"] == "++" else "-", one)
+            return self.assign(tgt, r) + cont()
         if k == "CXXOperatorCallExpr" and self.callee_name(s) == "operator=":
             lhs, rhs = s["inner"][1], s["inner"][2]
             return self.assign(lhs, self.e(rhs)) + cont()
@@ -1102,6 +1112,38 @@ def gen_dynamics():
 
 
 # ------------------------------------------------------------------------------------------
+# unit: Awgn  (noise deviation formulas of lib/awgn.cpp)
+
+
+def gen_awgn():
+    out = [HEADER % "lib/awgn.cpp (per-component noise deviation of awgn for real and complex input)",
+           "import DspVerif.Scalar\nnamespace Dsp\nnamespace Gen\n", SCALAR_VARS]
+    docs = clang_ast('#include "awgn.cpp"\n', "dsplib::awgn")
+    fns = [d for d in docs if d.get("kind") == "FunctionDecl" and d.get("name") == "awgn" and
+           any(c.get("kind") == "CompoundStmt" for c in d.get("inner", []))]
+    seen = set()
+    for f in fns:
+        ps = params_of(f)
+        kind = "C" if "cmplx" in qt(ps[0]) or "base_array<dsplib::cmplx_t>" in qt(ps[0]) or "arr_cmplx" in qt(ps[0]) else "R"
+        if kind in seen:
+            continue
+        seen.add(kind)
+        # first statement: `real_t stddev = <expr of rms(arr), snr>;`
+        first = body_of(f)["inner"][0]
+        if first.get("kind") != "DeclStmt" or first["inner"][0].get("name") != "stddev":
+            raise Unsupported("awgn(%s): body does not start with the stddev formula" % kind)
+        init = [c for c in first["inner"][0]["inner"]][0]
+        tr = Tr(user_calls={"rms": lambda a, n: "rmsArr"})
+        expr = tr.e(init)
+        out.append("/-- `awgn(const arr_%s&, real_t snr)`: deviation of each noise component, given `rmsArr = rms(arr)` -/\n"
+                   "def awgnSigma%s (rmsArr %s : α) : α :=\n  %s\n" % ("cmplx" if kind == "C" else "real", kind, ps[1]["name"], expr))
+    if seen != {"R", "C"}:
+        raise Unsupported("awgn overloads found: %s" % sorted(seen))
+    out.append("end Gen\nend Dsp\n")
+    return "\n".join(out)
+
+
+# ------------------------------------------------------------------------------------------
 UNITS = {}
 
 
@@ -1116,6 +1158,7 @@ unit("Cmplx", ["include/dsplib/types.h"])(gen_cmplx)
 unit("Slice", ["include/dsplib/slice.h"])(gen_slice)
 unit("SmallFft", ["lib/fft/small-fft.h", "lib/fft/primes-fft.h"])(gen_smallfft)
 unit("Dynamics", ["lib/math.cpp", "include/dsplib/math.h", "include/dsplib/audio/compressor.h", "include/dsplib/audio/limiter.h"])(gen_dynamics)
+unit("Awgn", ["lib/awgn.cpp"])(gen_awgn)
 unit("Consts", ["lib/primes.cpp", "lib/fft/primes-fft.h", "lib/fft/fft.cpp", "CMakeLists.txt"])(gen_consts)
 
 
